@@ -167,6 +167,18 @@ ARGFIELDS = {"plain1": (0,), "typed1": (0,), "second1": (1,), "plain2": (0, 1), 
 
 
 # --------------------------------------------------------------------------- helpers
+def guarded(fn, *args):
+    """run the real code under a watchdog; a first timeout may be a stall of a busy machine (the timer is wall
+    clock), so the deterministic call is repeated once with a long limit — only a second timeout is a hang"""
+    try:
+        with watchdog(3):
+            return fn(*args)
+    except Timeout:
+        pass
+    with watchdog(30):
+        return fn(*args)
+
+
 def mkvalue(item):
     x, y, tag, ctx = item
     data = (x, y, tag)
@@ -282,8 +294,7 @@ def run_real(edges, flowj, aname, vname, ncompute=1, poke=True):
 def routing_diagnosis(edges, flowj, vname):
     """which clause of the routing broke (used to make the failure id fine-grained)"""
     try:
-        with watchdog(2):
-            _, res, _, _ = run_real(edges, flowj, "collect", vname, poke=False)
+        _, res, _, _ = guarded(run_real, edges, flowj, "collect", vname, 1, False)
         hist = res[0][0][0]
     except Exception:
         return "routing-probe-raised"
@@ -325,8 +336,7 @@ def check_sib(edges, flowj, aname, vname, twice=False):
     bad = []
     ncomp = 2 if twice else 1
     try:
-        with watchdog(3):
-            sib, res, var_context, given = run_real(edges, flowj, aname, vname, ncomp)
+        sib, res, var_context, given = guarded(run_real, edges, flowj, aname, vname, ncomp)
     except Timeout:
         return [("SplitIntoBins/non-termination", "fill/compute did not return")]
     except Exception as e:
@@ -395,8 +405,7 @@ def check_sib(edges, flowj, aname, vname, twice=False):
     inside = [item for item in flowj if cell_of(item, vname, edges) is not None]
     if len(inside) != len(flowj) and not bad:
         try:
-            with watchdog(3):
-                _, res2, _, _ = run_real(edges, inside, aname, vname, 1)
+            _, res2, _, _ = guarded(run_real, edges, inside, aname, vname, 1)
             if repr(res2[0]) != repr(res[0]):
                 bad.append(("SplitIntoBins/outside-values-change-the-result",
                             "with outside values: %.300r; without them: %.300r" % (res[0], res2[0])))
@@ -410,7 +419,11 @@ def replay_sib(fid, edges, flowj, aname, vname, twice=False):
 
 
 def report(R, bad, witness, fn, args):
+    seen = set()
     for fid, text in bad:
+        if fid in seen:         # one report per case and kind
+            continue
+        seen.add(fid)
         R.fail(fid, "%s  [%s]" % (text, ", ".join("%s=%r" % kv for kv in sorted(witness.items()))), witness,
                {"fn": fn, "args": [fid] + args})
 
@@ -424,63 +437,66 @@ def sib_case(R, edges, flowj, aname, vname, twice=False):
 
 # histories: fills and computes interleaved (FillRequest(reset=False) drives a FillCompute element like this)
 def check_history(edges, blocks, aname, vname):
+    try:
+        return guarded(_history, edges, blocks, aname, vname)
+    except Timeout:
+        return [("SplitIntoBins/non-termination", "history did not return")]
+    except Exception as e:
+        return [("SplitIntoBins/raises:%s" % type(e).__name__, "history raised %s: %s" % (type(e).__name__, str(e)[:120]))]
+
+
+def _history(edges, blocks, aname, vname):
     bad = []
     seq = ANALYSES[aname]()
     var = ARGVARS[len(axes(edges))][vname]()
     var_context = copy.deepcopy(var.var_context)
     cells = all_cells(edges)
     priv = dict((idx, as_fcs(ANALYSES[aname]())) for idx in cells)
-    try:
-        with watchdog(3):
-            sib = SplitIntoBins(seq, var, copy.deepcopy(edges))
-            for nb, block in enumerate(blocks):
-                for item in block:
-                    sib.fill(mkvalue(item))
-                    idx = cell_of(item, vname, edges)
-                    if idx is not None:
-                        priv[idx].fill(mkvalue(item))
-                ref, ref_exc = {}, set()
-                for idx in cells:
-                    try:
-                        ref[idx] = list(priv[idx].compute())
-                    except Exception as e:
-                        ref_exc.add(type(e).__name__)
-                try:
-                    r = list(sib.compute())
-                except Timeout:
-                    raise
-                except Exception as e:
-                    if type(e).__name__ in ref_exc:
-                        return bad      # a cell's private analysis raises the same exception
-                    raise
-                if ref_exc:
-                    bad.append(("SplitIntoBins/exception-of-a-cell-swallowed", "compute #%d: a private analysis raises %r" % (nb, sorted(ref_exc))))
-                    return bad
-                nexp = min(len(v) for v in ref.values())
-                if len(r) != nexp:
-                    bad.append(("SplitIntoBins/history/number-of-histograms", "compute #%d yielded %d values, expected %d" % (nb, len(r), nexp)))
-                for k, (h, ctx) in enumerate(r[:nexp]):
-                    if h.edges != edges or not shape_ok(h.bins, edges):
-                        bad.append(("SplitIntoBins/history/histogram-edges", "compute #%d: %r" % (nb, h)))
-                        continue
-                    for idx in cells:
-                        if not same(cell_at(h.bins, idx), ref[idx][k]):
-                            bad.append(("SplitIntoBins/history/cell-result-differs",
-                                        "compute #%d result %d cell %r holds %.300r, private analysis gives %.300r" % (
-                                            nb, k, idx, cell_at(h.bins, idx), ref[idx][k])))
-                            break
-                    cv = ctx.get("variable")
-                    if cv != var_context:
-                        if isinstance(cv, dict) and set(cv) - set(var_context) == {"compose"} and \
-                                all(cv[key] == var_context[key] for key in var_context):
-                            fid = "SplitIntoBins/second-compute/context.variable-nests-compose-of-itself"
-                        else:
-                            fid = "SplitIntoBins/history/context.variable-is-not-the-argument-variable"
-                        bad.append((fid, "compute #%d: context.variable = %r, the argument variable is %r" % (nb, cv, var_context)))
-    except Timeout:
-        return [("SplitIntoBins/non-termination", "history did not return")]
-    except Exception as e:
-        return [("SplitIntoBins/raises:%s" % type(e).__name__, "history raised %s: %s" % (type(e).__name__, str(e)[:120]))]
+    sib = SplitIntoBins(seq, var, copy.deepcopy(edges))
+    for nb, block in enumerate(blocks):
+        for item in block:
+            sib.fill(mkvalue(item))
+            idx = cell_of(item, vname, edges)
+            if idx is not None:
+                priv[idx].fill(mkvalue(item))
+        ref, ref_exc = {}, set()
+        for idx in cells:
+            try:
+                ref[idx] = list(priv[idx].compute())
+            except Exception as e:
+                ref_exc.add(type(e).__name__)
+        try:
+            r = list(sib.compute())
+        except Timeout:
+            raise
+        except Exception as e:
+            if type(e).__name__ in ref_exc:
+                return bad      # a cell's private analysis raises the same exception
+            raise
+        if ref_exc:
+            bad.append(("SplitIntoBins/exception-of-a-cell-swallowed", "compute #%d: a private analysis raises %r" % (nb, sorted(ref_exc))))
+            return bad
+        nexp = min(len(v) for v in ref.values())
+        if len(r) != nexp:
+            bad.append(("SplitIntoBins/history/number-of-histograms", "compute #%d yielded %d values, expected %d" % (nb, len(r), nexp)))
+        for k, (h, ctx) in enumerate(r[:nexp]):
+            if h.edges != edges or not shape_ok(h.bins, edges):
+                bad.append(("SplitIntoBins/history/histogram-edges", "compute #%d: %r" % (nb, h)))
+                continue
+            for idx in cells:
+                if not same(cell_at(h.bins, idx), ref[idx][k]):
+                    bad.append(("SplitIntoBins/history/cell-result-differs",
+                                "compute #%d result %d cell %r holds %.300r, private analysis gives %.300r" % (
+                                    nb, k, idx, cell_at(h.bins, idx), ref[idx][k])))
+                    break
+            cv = ctx.get("variable")
+            if cv != var_context:
+                if isinstance(cv, dict) and set(cv) - set(var_context) == {"compose"} and \
+                        all(cv[key] == var_context[key] for key in var_context):
+                    fid = "SplitIntoBins/second-compute/context.variable-nests-compose-of-itself"
+                else:
+                    fid = "SplitIntoBins/history/context.variable-is-not-the-argument-variable"
+                bad.append((fid, "compute #%d: context.variable = %r, the argument variable is %r" % (nb, cv, var_context)))
     return bad
 
 
@@ -507,8 +523,7 @@ def check_iterate(hist, hctx, select_all):
     octx = copy.deepcopy(hctx)
     el = IterateBins(select_bins=(lambda _: True)) if select_all else IterateBins()
     try:
-        with watchdog(3):
-            out = list(el.run(iter([(hist, hctx)])))
+        out = guarded(lambda: list(el.run(iter([(copy.deepcopy(hist), copy.deepcopy(hctx))]))))
     except Timeout:
         return [("IterateBins/non-termination", "run did not return")]
     except Exception as e:
@@ -665,9 +680,8 @@ def check_map(hist, hctx, sname, drop):
         ref[idx] = list(s.run(iter([copy.deepcopy(cell_at(orig.bins, idx))])))
     nexp = min(len(v) for v in ref.values())
     try:
-        with watchdog(3):
-            el = MapBins(MAPSEQS[sname](), drop_bins_context=drop)
-            out = list(el.run(iter([(hist, hctx), (copy.deepcopy(orig), copy.deepcopy(hctx))])))
+        out = guarded(lambda: list(MapBins(MAPSEQS[sname](), drop_bins_context=drop).run(
+            iter([(copy.deepcopy(orig), copy.deepcopy(hctx)), (copy.deepcopy(orig), copy.deepcopy(hctx))]))))
     except Timeout:
         return [("MapBins/non-termination", "run did not return")]
     except Exception as e:
@@ -762,8 +776,7 @@ def check_mdseqmap(shape, lens):
     for k in range(min(lens)):
         exp.append(ref_map(lambda cell: cell[k], arr))
     try:
-        with watchdog(2):
-            got = list(_MdSeqMap(lambda cell: iter(cell), arr))
+        got = guarded(lambda: list(_MdSeqMap(lambda cell: iter(cell), arr)))
     except Timeout:
         return [("_MdSeqMap/non-termination", "iteration over shape %r lens %r did not stop" % (shape, lens))]
     except Exception as e:
@@ -985,7 +998,11 @@ def body(R):
             for flowj in fixed[1:]:
                 for sname in sorted(MAPSEQS):
                     for drop in (True, False):
-                        for k, (h, c) in enumerate(build_hist(edges, copy.deepcopy(flowj), aname, vname)):
+                        try:
+                            results = build_hist(edges, copy.deepcopy(flowj), aname, vname)
+                        except Exception:
+                            continue   # reported by the SplitIntoBins scopes
+                        for k, (h, c) in enumerate(results):
                             bad = check_map(h, c, sname, drop)
                             R.case(True)
                             report(R, bad, {"edges": edges, "analysis": aname, "arg_var": vname, "flow": flowj, "seq": sname, "drop": drop, "result": k},
